@@ -300,7 +300,7 @@ type WireRig struct {
 }
 
 // NewWireRig builds the rig (mode Sync or Blocking).
-func NewWireRig(e Enc, mode mon.Mode, q int) (r *WireRig, err error) {
+func NewWireRig(e Enc, mode mon.Mode, q int, wrap *[2]int) (r *WireRig, err error) {
 	defer func() {
 		if p := recover(); p != nil {
 			err = fmt.Errorf("%v", p)
@@ -312,12 +312,19 @@ func NewWireRig(e Enc, mode mon.Mode, q int) (r *WireRig, err error) {
 	if mode != mon.Sync {
 		plan = []mon.Step{{At: "x1", Occ: 1, Kind: mon.Gate, Until: "go", UntilCount: 1, Timeout: 30 * time.Millisecond}}
 	}
-	r.rig = mon.NewRig(mon.RigOpts{Mode: mode, Queue: q, Handlers: []netty.Handler{h, r.exc}, Plan: plan})
+	r.rig = mon.NewRig(mon.RigOpts{Mode: mode, Queue: q, Handlers: []netty.Handler{h, r.exc}, Plan: plan, Wrap: wrap})
 	return r, nil
 }
 
 // Write sends one message through the encoder.
 func (r *WireRig) Write(msg interface{}) error { return r.rig.Ch.Write(msg) }
+
+// ExcCount is the number of exceptions seen so far (a refused message raises one).
+func (r *WireRig) ExcCount() int {
+	r.exc.mu.Lock()
+	defer r.exc.mu.Unlock()
+	return len(r.exc.exc)
+}
 
 // Finish releases the sender, waits for quiescence and returns the wire and the exceptions seen.
 func (r *WireRig) Finish() (wire []byte, exc []error, ok bool) {
